@@ -178,6 +178,7 @@ def main(argv=None):
     ap.add_argument('--only', default=None, help='substring filter on lemma names (debugging)')
     ap.add_argument('--no-replay', action='store_true')
     ap.add_argument('--mutants', action='store_true', help='run the self-test mutants also in the quick tier')
+    ap.add_argument('--xcheck', action='store_true', help='run the encoding cross-check against CPython also in the quick tier')
     ap.add_argument('-v', action='store_true')
     a = ap.parse_args(argv)
     sys.path.insert(0, VERIF)
@@ -206,8 +207,26 @@ def main(argv=None):
     extra = {}
     if (a.tier == 'thorough' or a.mutants) and hasattr(mod, 'MUTANTS') and not a.only:
         extra['selftest_mutants'] = run_mutants(prop_id, mod, a, ctx, idxs)
+    if (a.tier == 'thorough' or a.xcheck) and not a.only:
+        extra['encoding_crosscheck'] = run_xcheck(prop_id, seed, a.jobs)
     rc, summary = report(prop_id, a.tier, seed, results, mod, a, t0, extra=extra)
     return rc
+
+
+def run_xcheck(prop_id, seed, jobs):
+    """encoding cross-check of the symbolic semantics against CPython (tools/xcheck.py): the hand-written corpus plus 40 generated
+    control-flow programs whose seed depends on the property, so the twenty thorough runs together cover 800 different programs"""
+    import importlib.util
+    spec = importlib.util.spec_from_file_location('xcheck_tool', os.path.join(VERIF, 'tools', 'xcheck.py'))
+    m = importlib.util.module_from_spec(spec)
+    try:
+        spec.loader.exec_module(m)
+        s = seed * 100 + int(prop_id[1:]) if prop_id[1:].isdigit() else seed
+        summary, mism = m.run(seed=s, ngen=40, jobs=jobs, quiet=True)
+        summary['mismatch_details'] = [{'func': r['func'], 'detail': r['detail'], 'pyvc': r.get('pyvc_outcomes')} for r in mism][:5]
+        return summary
+    except Exception:
+        return {'error': traceback.format_exc()[-1500:]}
 
 
 def run_mutants(prop_id, mod, a, ctx, idxs):
@@ -335,6 +354,11 @@ def report(prop_id, tier, seed, results, mod, a, t0, write=True, extra=None):
         rc = 3
         for m in extra['selftest_mutants']['accepted']:
             print(f'ENGINE-FAILURE property={prop_id}: self-test mutant accepted (verifier lost discriminating power): {m}')
+    elif extra and (extra.get('encoding_crosscheck', {}).get('mismatch') or extra.get('encoding_crosscheck', {}).get('error')):
+        rc = 3
+        xc = extra['encoding_crosscheck']
+        print(f'ENGINE-FAILURE property={prop_id}: the symbolic semantics disagrees with CPython on {xc.get("mismatch")} {xc.get("error", "")} '
+              f'(python3-vt tools/xcheck.py --seed {xc.get("seed")} shows the details)')
     elif len(all_obs) < floor:
         rc = 3
         print(f'ENGINE-FAILURE property={prop_id}: only {len(all_obs)} obligations generated, floor is {floor}')
